@@ -32,6 +32,8 @@ func init() {
 	register(&Spec{
 		ID: "C18",
 		Explanation: "Decides: R1 with a TRACE handler configured, a TRACE request never reaches the matcher or a 404 return of Tree.Handler — it is answered by the TRACE handler with the root node; R2 (= C04.R3) every method summary includes the TRACE bit when configured; R3 (= C08.R4) TRACE cannot be registered by hand iff a TRACE handler is configured, and is an ordinary method otherwise; R4 header before status — in the whole module no header of a ResponseWriter is set after WriteHeader/Write on the same writer; R5 the Trace helper writes html.EscapeString of httputil.DumpRequest(r, body) with status 200 and Content-Type message/http, and mux.Trace forwards its arguments in order. " +
+			"R11 (= C04.R16) TRACE named in Remove's list reaches the deletion of its entry. " +
+			"R12 (= C07.R2) the method tables do not escape; R13 (= C09.R4) wrap-site arguments of the TRACE handler. " +
 			"Not decided: the content of httputil.DumpRequest.",
 		Assumptions: commonAssumptions,
 		Run: func(c *Ctx) {
@@ -45,6 +47,9 @@ func init() {
 			ruleGroupOptionOrder(c, "R8")
 			ruleHasTraceIsNonNil(c, "R9")
 			ruleOnlyKnownConstantKeys(c, "R10")
+			ruleOnlyAutomaticKeysAreKeptOnRemove(c, "R11")
+			ruleGlobalsDoNotEscape(c, "R12")
+			ruleWrapSites(c, "R13")
 		},
 	})
 }
@@ -738,6 +743,40 @@ func ruleHeadWriter(c *Ctx, rule string) {
 			})
 		})
 	})
+	// … from the first bytes: net/http's Write returns before anything is committed when it is handed no bytes, so
+	// an empty first Write detects nothing (DetectContentType of nothing is text/plain, and GET would go on to detect
+	// from the first real bytes)
+	if sniffs && guarded {
+		nonEmpty := false
+		an.AllInstrs(write, func(in ssa.Instruction) {
+			call, ok := calleeNamed(in, "net/http.Header.Set")
+			if !ok || c.O.Of(call.Args[2]).String() != "call<net/http.DetectContentType>("+bytesParam+")" {
+				return
+			}
+			nonEmpty = an.DominatedByEdge(in, func(b *ssa.BasicBlock, succ int) bool {
+				return edgeHas(b, succ, func(cond ssa.Value, truth bool) bool {
+					bare, neg := stripNot(cond)
+					bo, isB := bare.(*ssa.BinOp)
+					if !isB {
+						return false
+					}
+					holds := truth != neg
+					for _, v := range []ssa.Value{bo.X, bo.Y} {
+						if c.O.Of(v).String() != "call<builtin:len>("+bytesParam+")" {
+							continue
+						}
+						at0, ok0 := cmpWithConst(bo, v, 0)
+						at1, ok1 := cmpWithConst(bo, v, 1)
+						if ok0 && ok1 && at0 != holds && at1 == holds {
+							return true
+						}
+					}
+					return false
+				})
+			})
+		})
+		c.R.Add(rule, c.fk(write), "write:detects-from-the-first-non-empty-Write", c.P.Pos(write.Pos()), nonEmpty, ifelse(nonEmpty, "the detection is behind len(bytes) > 0", "the detection also runs for an empty first Write: DetectContentType of no bytes is text/plain, while net/http returns from an empty Write before committing anything and detects from the first real bytes — a handler that writes \"\" and then HTML answers text/html on GET and text/plain on HEAD"))
+	}
 	c.R.Add(rule, c.fk(write), "write:detects-unset-Content-Type", c.P.Pos(write.Pos()), sniffs && guarded, ifelse(sniffs && guarded, "a Content-Type the handler did not set is detected from the written bytes, as net/http does for GET", ifelse(!sniffs, "the wrapper swallows the bytes from which net/http would detect a Content-Type the handler did not set: GET carries Content-Type, HEAD of the same handler does not", "the wrapper overwrites the handler's own Content-Type with a detected one")))
 	// the header is committed by the first Write: on GET net/http sends status 200 and freezes the header then, and a
 	// later WriteHeader or header change has no effect. The wrapper swallows the Write, so it has to emulate that —
@@ -759,6 +798,29 @@ func ruleHeadWriter(c *Ctx, rule string) {
 		case "Unwrap", "ReadFrom", "Flush", "Hijack":
 			bypass = wrapT.Method(i).Name()
 		}
+	}
+	// a second way in for body bytes (WriteString — io.WriteString prefers it) has to go through the wrapper's own
+	// Write, or it repeats only a part of what Write does (the byte count without the Content-Type detection)
+	for i := 0; i < wrapT.NumMethods(); i++ {
+		m := wrapT.Method(i)
+		if m.Name() != "WriteString" && m.Name() != "WriteBytes" {
+			continue
+		}
+		fn := c.P.Func("mux.(*headResponse)." + m.Name())
+		if fn == nil {
+			fn = c.P.Func("mux.headResponse." + m.Name())
+		}
+		delegates := false
+		if fn != nil {
+			an.AllInstrs(fn, func(in ssa.Instruction) {
+				if call := an.CallOf(in); call != nil {
+					if g := an.StaticCallee(call); g != nil && an.Origin(g) == an.Origin(write) {
+						delegates = true
+					}
+				}
+			})
+		}
+		c.R.Add(rule, "mux.headResponse", "extra-body-sink:"+m.Name()+"/delegates-to-Write", c.P.Pos(m.Pos()), delegates, ifelse(delegates, "the extra method hands its bytes to Write", "the wrapper has a second way in for body bytes ("+m.Name()+", which io.WriteString prefers to Write) that does not go through Write: it repeats the byte count but not the rest (a Content-Type the handler did not set is detected by GET and missing on HEAD)"))
 	}
 	c.R.Add(rule, "mux.headResponse", "no-bypass-methods", c.P.Pos(wrapT.Obj().Pos()), bypass == "", ifelse(bypass == "", "the wrapper declares no Unwrap/ReadFrom/Flush/Hijack", "the wrapper declares "+bypass+": http.ResponseController or io.Copy can reach the real writer and deliver a body"))
 }
